@@ -1,6 +1,11 @@
 package rules
 
 import (
+	"fmt"
+	"os"
+	"go/token"
+	"go/types"
+	"sort"
 	"strings"
 
 	"golang.org/x/tools/go/ssa"
@@ -260,4 +265,192 @@ func errGuarded(mi *ssa.MakeInterface) bool {
 		}
 	}
 	return true
+}
+
+// nonNilAt: x executes only where pointer v was found non-nil (guards with && / || and helper predicates taken apart).
+func nonNilAt(x ssa.Instruction, v ssa.Value) bool {
+	for _, a := range core.GuardAtoms(x) {
+		t, nilOnTrue, ok := core.NilTest(a.Cond)
+		if !ok || nilOnTrue == a.True {
+			continue
+		}
+		t = a.Bind(t)
+		_, vPhi := v.(*ssa.Phi)
+		_, tPhi := t.(*ssa.Phi)
+		if t == v || (!vPhi && !tPhi && (sameExpr(t, v) || core.SameObject(t, v))) {
+			return true // (two accumulators of one loop share origins without being the same variable)
+		}
+		// the tested value denotes v and nothing else (a parameter of a shared helper denotes all its arguments)
+		if _, isParam := t.(*ssa.Parameter); isParam {
+			os := core.Origins(t)
+			all := len(os) > 0
+			for _, o := range os {
+				if o != v {
+					all = false
+				}
+			}
+			if all {
+				return true
+			}
+		}
+	}
+	return false
+}
+
+// derefsParam: function g selects a field of (or calls a method through an embedded field of) its pointer parameter
+// number i without testing it against nil first.
+func derefsParam(g *ssa.Function, i int) bool {
+	if g == nil || g.Blocks == nil || i >= len(g.Params) {
+		return false
+	}
+	p := g.Params[i]
+	if _, isPtr := p.Type().Underlying().(*types.Pointer); !isPtr {
+		return false
+	}
+	found := false
+	core.WithoutInlining(func() { // judged inside g alone: what its callers tested is the callers' business
+		for _, ref := range *p.Referrers() {
+			switch x := ref.(type) {
+			case *ssa.FieldAddr:
+				if x.X == ssa.Value(p) && !nonNilAt(x, p) {
+					found = true
+				}
+			case *ssa.UnOp:
+				if x.Op == token.MUL && x.X == ssa.Value(p) && !nonNilAt(x, p) {
+					found = true
+				}
+			}
+		}
+	})
+	return found
+}
+
+// c20RunnerUpNil (K10): a runner-up accumulator - a pointer variable of a loop that starts as nil and receives the
+// displaced value of another accumulator of the same loop (secondHighest = highest) - is nil whenever the collection
+// has a single element. It must not be dereferenced, nor handed to a function that dereferences its parameter, unless
+// a nil test of it dominates the use.
+func c20RunnerUpNil(w *core.World, r *core.Report, scope map[*ssa.Function]bool) int {
+	n := 0
+	fns := make([]*ssa.Function, 0, len(scope))
+	for f := range scope {
+		fns = append(fns, f)
+	}
+	sort.Slice(fns, func(i, j int) bool { return core.FuncKey(fns[i]) < core.FuncKey(fns[j]) })
+	for _, f := range fns {
+		var phis []*ssa.Phi
+		for _, b := range f.Blocks {
+			for _, in := range b.Instrs {
+				if p, ok := in.(*ssa.Phi); ok {
+					if _, isPtr := p.Type().Underlying().(*types.Pointer); isPtr {
+						phis = append(phis, p)
+					}
+				}
+			}
+		}
+		closure := func(p *ssa.Phi) map[*ssa.Phi]bool {
+			cl := map[*ssa.Phi]bool{}
+			var walk func(q *ssa.Phi)
+			walk = func(q *ssa.Phi) {
+				if cl[q] {
+					return
+				}
+				cl[q] = true
+				for _, e := range q.Edges {
+					if pe, ok := e.(*ssa.Phi); ok {
+						walk(pe)
+					}
+				}
+			}
+			walk(p)
+			return cl
+		}
+		loopCarried := func(p *ssa.Phi, cl map[*ssa.Phi]bool) bool {
+			for q := range cl {
+				for _, e := range q.Edges {
+					if e == ssa.Value(p) && q != p {
+						return true
+					}
+				}
+			}
+			for _, e := range p.Edges {
+				if e == ssa.Value(p) {
+					return true
+				}
+			}
+			return false
+		}
+		for _, p := range phis {
+			cl := closure(p)
+			if os.Getenv("DSCHECK_DEBUG_RU") != "" && strings.Contains(core.FuncKey(f), os.Getenv("DSCHECK_DEBUG_RU")) {
+				fmt.Println("RU", core.FuncKey(f), p.Name(), p.Comment, len(cl), loopCarried(p, cl))
+			}
+			if !loopCarried(p, cl) {
+				continue
+			}
+			hasNil := false
+			for q := range cl {
+				for _, e := range q.Edges {
+					if core.IsNilConst(e) {
+						hasNil = true
+					}
+				}
+			}
+			if !hasNil {
+				continue
+			}
+			// runner-up: the closure is fed by another loop-carried accumulator whose own closure does not contain p
+			runnerUp := false
+			for _, o := range phis {
+				if o == p || !cl[o] {
+					continue
+				}
+				ocl := closure(o)
+				if !ocl[p] && loopCarried(o, ocl) {
+					runnerUp = true
+				}
+			}
+			if os.Getenv("DSCHECK_DEBUG_RU") != "" && strings.Contains(core.FuncKey(f), os.Getenv("DSCHECK_DEBUG_RU")) {
+				fmt.Println("RU2", p.Name(), "hasNil", hasNil, "runnerUp", runnerUp)
+				for _, ref := range *p.Referrers() {
+					if c, ok := ref.(ssa.CallInstruction); ok {
+						g := c.Common().StaticCallee()
+						fmt.Println("   call", core.CalleeKey(c), g != nil, g != nil && derefsParam(g, 0))
+					}
+				}
+			}
+			if !runnerUp {
+				continue
+			}
+			for _, ref := range *p.Referrers() {
+				in := ref
+				bad := ""
+				switch x := ref.(type) {
+				case *ssa.FieldAddr:
+					if x.X == ssa.Value(p) {
+						bad = "its field " + core.FieldKey(x) + " is selected"
+					}
+				case ssa.CallInstruction:
+					cc := x.Common()
+					if g := cc.StaticCallee(); g != nil {
+						for i, a := range cc.Args {
+							if a == ssa.Value(p) && derefsParam(g, i) {
+								bad = "it is handed to " + core.FuncKey(g) + ", which dereferences that parameter"
+							}
+						}
+					}
+				}
+				if bad == "" {
+					continue
+				}
+				n++
+				if os.Getenv("DSCHECK_DEBUG_RU") != "" {
+					for _, a := range core.GuardAtoms(in) {
+						fmt.Println("   ATOM", a.Cond, a.True, a.Cond.Parent().Name(), a.Site != nil, nonNilAt(in, p))
+					}
+				}
+				r.Check(nonNilAt(in, p), "RUNNER-UP-NIL", core.Site(f, "runner-up %s", p.Comment), w.InstrPos(in), "the second-best candidate is nil when there is only one candidate; "+bad+" without a nil test")
+			}
+		}
+	}
+	return n
 }
